@@ -11,7 +11,7 @@ EXPLANATION = ("Real Motl.clean_by_distance (+geom.point_pairwise_dist, get_motl
                "scores, symbolic threshold and symbolic angle-list entries; voxel coordinates are concrete after the threshold fork, so the real scipy "
                "KD-tree and sklearn DBSCAN run unmodified.")
 ASSUMPTIONS = ["clean_by_distance: N = 3 particles on a symbolic line (distances are |dx|: linear arithmetic) and N = 2 (quick) / 3 (thorough) in 3-D; scores pairwise distinct, and jobs with ties=True where equal scores are allowed; "
-               "no pair at distance exactly d (ties excluded by the property); groups from {1,2} via solver forks; d in (0,100]",
+               "no pair at distance exactly d (ties excluded by the property); groups from {1,2} via solver forks; d in (0,100]; row labels 0..N-1 and, in two jobs, permuted ([2,0,1]) and gapped ([7,1,4]) labels as left by a selection without index reset",
                "score maps 2x2x1 (quick) / 3x2x1, 2x2x2 (thorough) with distinct scores; diameter in {1, 1.5, 2.5}; angle numbering 0/1; zxz/zzx"]
 OUTSIDE = ["N > 3 particles in 3-D / > 4 on a line, maps > 8 voxels (the path count grows as N! * 2^pairs)", "dist_mask variant of clean_by_distance", "float rounding (A0)"]
 BOUNDS = {"quick": {"particles": 3, "map_voxels": 4}, "thorough": {"particles": 4, "map_voxels": 8}}
@@ -31,7 +31,7 @@ def _conc(env, v):
     return float(v)
 
 
-def h_clean(env, n=3, line=True, feature="tomo_id", keep_greater=True, groups=True, ties=False):
+def h_clean(env, n=3, line=True, feature="tomo_id", keep_greater=True, groups=True, ties=False, index=None):
     cm = env.module("cryomotl")
     rows = []
     for i in range(n):
@@ -57,6 +57,10 @@ def h_clean(env, n=3, line=True, feature="tomo_id", keep_greater=True, groups=Tr
     # for an EQUAL OR BETTER close survivor, and for separation of the survivors whatever the scores are
     env.assume(env.and_(*[env.not_(env.eq(dist2(a, b), d * d)) for a in range(n) for b in range(a + 1, n)]))
     m = mk_motl(env, cm, rows)
+    if index is not None:
+        # row labels as a selection history leaves them (get_motl_subset(..., reset_index=False), remove_feature): distinct, neither
+        # contiguous nor ascending; the property is about rows, labels must not matter (added after round 5, seed C07-10)
+        m.df.index = list(index)[:n]
     m.clean_by_distance(d, feature, metric_id="score", keep_greater=keep_greater)
     kept = [float(v) for v in m.df["subtomo_id"]]
     env.check("survivors_are_input_particles", env.true() if (len(set(kept)) == len(kept) and all(1 <= k <= n for k in kept)) else _false(env))
@@ -171,6 +175,8 @@ def jobs(tier, seed):
          ("h_clean", {"n": 2, "line": False, "feature": "object_id", "keep_greater": True}),
          ("h_clean", {"n": 3, "line": True, "feature": "tomo_id", "keep_greater": True, "groups": False, "ties": True}),
          ("h_clean", {"n": 2, "line": True, "feature": "class", "keep_greater": False, "ties": True}),
+         ("h_clean", {"n": 3, "line": True, "feature": "tomo_id", "keep_greater": True, "index": [2, 0, 1]}),
+         ("h_clean", {"n": 3, "line": True, "feature": "class", "keep_greater": False, "index": [7, 1, 4]}),
          ("h_peaks", {"shape": "3x1x1", "diameter": 1.5, "numbering": 0, "order": "zxz"}), ("h_peaks", {"shape": "3x1x1", "diameter": 1.0, "numbering": 1, "order": "zxz", "big_list": True}),
          ("h_peaks", {"shape": "2x2x1", "diameter": 1.5, "numbering": 0, "order": "zxz"}),
          ("h_peaks", {"shape": "2x2x1", "diameter": 1.0, "numbering": 1, "order": "zzx"})]
